@@ -226,8 +226,9 @@ WritesFail(c) == \/ ~Regular(c.target)
 ExpRet(c) == IF WritesFail(c) \/ c.closeFault \/ c.serFault THEN "err" ELSE "nil"
 
 \* the most that can still be missing from the file when the zip writer is closed
-\* (a stage delays the news by one more chunk)
-TailBytes(c) == c.dir + c.B * (IF c.staged THEN 2 ELSE 1) + MaxSeq(c.dat)
+\* (a stage delays the news until the chunk AFTER the one that failed has been handed over)
+MaxChunk(c)  == IF MaxSeq(c.dat) > MaxSeq(c.hdr) THEN MaxSeq(c.dat) ELSE MaxSeq(c.hdr)
+TailBytes(c) == IF c.staged THEN c.dir + 2 * c.B + 2 * MaxChunk(c) ELSE c.dir + c.B + MaxSeq(c.dat)
 
 \* =========================================================================
 \* The judge's side: one observed call of a save entry point.
